@@ -7,8 +7,8 @@
 NAME=$1; shift
 HERE=$(cd "$(dirname "$0")" && pwd)
 ROOT=$(cd "$HERE/../../.." && pwd)
-SC=/tmp/sc_T7_$NAME
-OUT=/tmp/sc_T7_out_$NAME
+SC=/tmp/sc_R7_$NAME
+OUT=/tmp/sc_R7_out_$NAME
 rm -rf "$OUT"; git -C /repo worktree remove --force "$SC" 2>/dev/null || true
 git -C /repo worktree add --detach "$SC" HEAD >/dev/null 2>&1
 ( cd "$SC" && if [ -f "$HERE/seeded/$NAME.diff" ]; then git apply "$HERE/seeded/$NAME.diff"; else /venv/bin/python "$HERE/edits/$NAME.py"; fi ) || { echo "$NAME: edit failed"; git -C /repo worktree remove --force "$SC"; exit 1; }
